@@ -10,6 +10,8 @@ import BespokeVerif.Model.Instr
 import BespokeVerif.Model.Expr
 import BespokeVerif.Model.Layout
 import BespokeVerif.Model.Subst
+import BespokeVerif.Model.Output
+import BespokeVerif.Model.Pipeline
 open Lean BV
 
 namespace Drv
@@ -230,6 +232,8 @@ def parseCfg (j : Json) : R Cfg := do
            pageSize := intD j "pageSize" 1, regs := regs, preZones := preZones, preConsts := preConsts,
            preData := preData, preSyms := preSyms }
 
+def jMap (m : AddrMap) : Json := Json.arr (m.map fun (a, b) => Json.arr #[jInt a, Json.num (JsonNumber.fromNat b)]).toArray
+
 def jEmitted (e : Emitted) : Json :=
   Json.mkObj [("addr", jInt e.addr), ("size", jInt e.size), ("bytes", jNats e.bytes), ("muted", Json.bool e.muted),
               ("isByte", Json.bool e.isByte)]
@@ -259,8 +263,12 @@ def opAsm (j : Json) : R Json := do
     let specImg := match stop with
       | some e => (List.range (e + 1 - start).toNat).map fun (i : Nat) => specImageByte o.emitted fill.toNat (start + (i : Int))
       | none => o.image
+    let (gapOk, mhMap) : Json × Json := match assembleOut cfg files with
+      | .ok ols => (Json.bool (everyGapHasOrg ols 0), jMap (mhRowsToMap (encMinHex ols []) 0 []))
+      | .error _ => (Json.null, Json.null)
     return Json.mkObj [("image", jNats o.image), ("specImage", jNats specImg), ("overlapSpec", overlapSpec),
-                       ("lines", Json.arr (o.emitted.map jEmitted).toArray), ("labels", jLabels o.labels)]
+                       ("lines", Json.arr (o.emitted.map jEmitted).toArray), ("labels", jLabels o.labels),
+                       ("everyGapHasOrg", gapOk), ("minhexModelMap", mhMap)]
 
 /-- block trees: {"b":"line","id":n} {"b":"define","name":..,"v":..}
     {"b":"chain","open":{"d":"if","c":..}|{"d":"ifdef","s":..},"body":[..],"elifs":[{"c":..,"body":[..]}],"else":[..]|null} -/
@@ -327,6 +335,27 @@ def opSubstProg (j : Json) : R Json := do
       | .ok ls => Json.mkObj [("lines", Json.arr (ls.map fun l => Json.str (unsegment l)).toArray)]
   return Json.mkObj [("impl", out resolve), ("spec", out expand)]
 
+/-- op "decode": text printed by the real assembler → address/byte pairs (listing: also the rows) -/
+def opDecode (j : Json) : R Json := do
+  let fmt ← str j "fmt"
+  let text ← str j "text"
+  match fmt with
+  | "intel_hex" => match decIHex text with
+    | .ok m => return Json.mkObj [("map", jMap m)]
+    | .error e => return jErr e
+  | "hex" => match decHexDump text with
+    | .ok m => return Json.mkObj [("map", jMap m)]
+    | .error e => return jErr e
+  | "minhex" => match decMinHex text with
+    | .ok m => return Json.mkObj [("map", jMap m)]
+    | .error e => return jErr e
+  | "listing" => match decListing text with
+    | .ok rows => return Json.mkObj [("map", jMap (lrowsMap rows)),
+        ("rows", Json.arr (rows.map fun r => Json.mkObj [("line", Json.num (JsonNumber.fromNat r.lineNo)),
+          ("addr", Json.num (JsonNumber.fromNat r.addr)), ("bytes", jNats r.bytes)]).toArray)]
+    | .error e => return jErr e
+  | _ => throw s!"format {fmt}"
+
 def dispatch (j : Json) : R Json := do
   let op ← str j "op"
   match op with
@@ -336,6 +365,7 @@ def dispatch (j : Json) : R Json := do
   | "asm" => opAsm j
   | "condtree" => opCondTree j
   | "substprog" => opSubstProg j
+  | "decode" => opDecode j
   | "ping" => pure (Json.mkObj [("pong", Json.bool true)])
   | _ => throw s!"unknown op {op}"
 
